@@ -160,13 +160,17 @@ C14_Priority ==
 \* what the maker gets: an order that a trade fills (partly or completely) pays its owner exactly the wanted amount of the part
 \* filled; an order that a trade closes (filled completely, or left with a remainder below the minimum volume) has paid, in
 \* wanted coins at the order's price plus refunded escrow, exactly what was escrowed (within the rounding of one unit per side).
-\* Evaluated for owners with a single order consumed in the step who are not the sender of the transaction.
+\* Evaluated for owners with a single order consumed in the step who are neither the sender nor a recipient of the transaction.
 OwnersOf(os) == {st.orders[o].owner : o \in os}
 OrdersOfIn(x, os) == {o \in os : st.orders[o].owner = x}
 GainOf(x, c) == Bal(st', x, c) -- Bal(st, x, c)
+\* accounts the transaction itself pays (a Send whose commission is converted through the order book may name a maker as its recipient)
+Recipients == IF Tx.type = "Send" /\ HasArg("to") THEN {Arg("to")}
+              ELSE IF Tx.type = "Multisend" /\ HasArg("list") THEN {Arg("list")[i].to : i \in DOMAIN Arg("list")}
+              ELSE {}
 C14_OwnerPaid ==
    Clause("C14", "MakerPaidAtOrderPriceAndRefundedExactly", Delivered /\ Code = 0 /\ Consumed # {},
-          \A x \in OwnersOf(Consumed) \ {S} :
+          \A x \in OwnersOf(Consumed) \ ({S} \cup Recipients) :
              (Cardinality(OrdersOfIn(x, Consumed)) = 1) =>
                 LET o == CHOOSE q \in OrdersOfIn(x, Consumed) : TRUE
                     a == st.orders[o]
